@@ -31,6 +31,8 @@ func main() {
 		cmdEvmint(*seed, *n, *out, *replay)
 	case "mercagg":
 		cmdMercAgg(*seed, *n, *out, *replay, *tier)
+	case "history":
+		cmdHistory(*seed, *n, *out, *replay, *tier)
 	case "agg":
 		cmdAgg(*seed, *n, *out, *replay, *kinds, *tier)
 	default:
